@@ -6,6 +6,7 @@ import os
 import subprocess
 
 import gen_authn
+import go2lean_c04
 import vlib
 
 PID = "C04"
@@ -422,6 +423,8 @@ def run(R):
 
 def run_checks(R):
     facts, tie_error, lean_ok = lean_step(R)
+    # compositeSubjectCreator.Execute translated from the current source, proved equal to `composite`
+    go2lean_c04.step(R)
     exe = vlib.step_harness(R)
     if exe is None:
         R.violation("harness does not build against /repo (API used by the correspondence check changed)",
@@ -595,6 +598,8 @@ def run_checks(R):
                     + "; ".join(R.lean["failed"])[:600],
                     {"lean_log": R.lean["log"], "failed": R.lean["failed"],
                      "theorems": R.lean.get("failed_theorems"), "extracted_facts": facts}, no_input=True)
+    go2lean_c04.report(R, exe, corpus + witnesses + small, run_pair, verdicts, shrink)
+    R.violations.sort(key=lambda v: v[2])      # the replay file carries the first violation: concrete inputs first
 
 
 def replay(R, path):
